@@ -99,6 +99,9 @@ def degenerate_enums_only(doc):
         return False
 
 
+NOT_THERE = object()
+
+
 def def_key(rng, k):
     """Key of a caller-supplied definition: the caller's choice, any string (a reference to it is a JSON
     pointer, in which `/` and `~` are escaped, written as a URI fragment, in which `%` is)."""
@@ -157,6 +160,32 @@ def check_tree(ctx, sut, element, extra_elements, definitions, model_schema, val
     if definitions and any(ref.split("/")[-1].replace("~1", "/").replace("~0", "~") in definitions for ref in collect_refs(
             {k: v for k, v in doc.items() if k != "definitions"} if isinstance(doc, dict) else {})):
         ctx.count("definitions.substituted")
+    # every definition the caller supplied still means what the supplied element means, under the caller's key
+    for key, supplied in (definitions or {}).items():
+        entry = doc.get("definitions", {}).get(key, NOT_THERE) if isinstance(doc, dict) else NOT_THERE
+        if entry is NOT_THERE:
+            ctx.witness("definition_missing", case, f"the caller's definition {key!r} is not in the document: {text[:300]}",
+                        finding="F08" if f08 else None)
+            return
+        for value in [{}, {"a": 1, "zz": "x"}, 1, "x", None, [1]] + list(values[:3]):
+            outcome = sut.call(supplied, copy.deepcopy(value))[0]
+            if outcome not in ("ok", "ValidationError", "TypeError"):
+                continue
+            try:
+                allowed = refmodel.verdicts(entry, value, doc, curated=gv.CURATED)
+            except RecursionError:
+                ctx.witness("definition_unresolvable", case,
+                            f"the caller's definition {key!r} runs into a reference cycle: {json.dumps(entry)[:200]}")
+                return
+            except Exception as exc:  # pylint: disable=broad-except
+                ctx.count("model_error." + type(exc).__name__)
+                continue
+            ctx.count("definitions.meaning_compared")
+            if sut.accepted(outcome) not in allowed:
+                ctx.witness("definition_meaning_changed", {**case, "value": value},
+                            f"supplied element -> {outcome}, definitions[{key!r}] -> {sorted(allowed)}: "
+                            f"{json.dumps(entry)[:300]}")
+                return
     for value in values:
         outcome = sut.call(element, copy.deepcopy(value))[0]
         if outcome not in ("ok", "ValidationError", "TypeError"):
